@@ -1,9 +1,50 @@
-(* Props/C08.v -- property C08 (statements proved so far; see DESIGN.md section 7 C08). *)
-From Coq Require Import NArith List Bool.
-From NRF Require Import Env.Radio Env.RadioFacts.
+(* Props/C08.v -- property C08: RX/TX switching preserves the user's pipe-0 address and
+   ACK reception.  Only statements, each closed by `exact`.
+
+   PInvW me d w says: radio `me` of world w is well formed and the object's cached view of
+   CONFIG / EN_AA / EN_RXADDR / RX_ADDR_P0 / TX_ADDR equals the radio, and whenever the
+   object remembers a user pipe-0 address (d_pipe0_read_addr = the complete register image
+   right after the user's last open_rx_pipe(0, a); None after close_rx_pipe(0) or if never
+   opened) pipe 0 is enabled.  (Established by __enter__, C09_enter; its preservation by the
+   calls of the alphabet is checked by the correspondence run, see DESIGN.md.) *)
+From Coq Require Import ZArith NArith List Bool.
+From NRF Require Import Env.Radio Env.World Env.WorldFacts Env.CfgFacts Drv.RF24 Drv.RF24Sim
+     Drv.CfgEval Drv.CtxFacts Drv.PipeFacts.
 Import ListNotations.
-Local Open Scope N_scope.
-Theorem C08_status_is_pre_command : forall r cmd data,
-  hd 0 (snd (spi r (cmd :: data))) = status r.
-Proof. exact spi_status_first. Qed.
-Print Assumptions C08_status_is_pre_command.
+Local Open Scope Z_scope.
+
+(* Whenever the radio enters RX mode: CE is high, PWR_UP and PRIM_RX are set, and pipe 0
+   listens on the address the user last opened it with (the complete 5-byte image) -- or is
+   closed if the user never opened it or has closed it; TX_ADDR is untouched and no other
+   radio's configuration changes.  For every world (any other radios, any traffic). *)
+Theorem C08_rx_entry : forall me d w, PInvW me d w ->
+  exists d1 w1, set_listen (WB me) true d w = (Ok tt, d1, w1)
+    /\ let c1 := cview (get_radio w1 me) in
+       c_ce c1 = true
+       /\ N.land (creg c1 0) 3 = 3%N
+       /\ match d_pipe0_read_addr d with
+          | Some img => c_p0 c1 = img /\ N.testbit (creg c1 2) 0 = true
+          | None => N.testbit (creg c1 2) 0 = false
+          end
+       /\ c_tx c1 = c_tx (cview (get_radio w me))
+       /\ (forall j, j <> me -> cview (get_radio w1 j) = cview (get_radio w j)).
+Proof. exact listen_true_world. Qed.
+Print Assumptions C08_rx_entry.
+
+(* Immediately after open_tx_pipe(a) (1..5 bytes; shorter addresses alter the leading
+   bytes, as documented): TX_ADDR starts with a; with auto-ack enabled for pipe 0,
+   RX_ADDR_P0 equals the COMPLETE TX address, and in TX mode (PRIM_RX clear) pipe 0 is
+   enabled -- so the acknowledgement can be received (World.hears_ack).  CE is unchanged. *)
+Theorem C08_tx_ack_path : forall me d w a, PInvW me d w -> (1 <= length a <= 5)%nat ->
+  exists d1 w1, open_tx_pipe (WB me) a d w = (Ok tt, d1, w1)
+    /\ let c := cview (get_radio w me) in
+       let c1 := cview (get_radio w1 me) in
+       firstn (length a) (c_tx c1) = a
+       /\ c_tx c1 = overlay a (c_tx c)
+       /\ (N.testbit (creg c 1) 0 = true ->
+             c_p0 c1 = c_tx c1
+             /\ (N.testbit (creg c 0) 0 = false -> N.testbit (creg c1 2) 0 = true))
+       /\ c_ce c1 = c_ce c
+       /\ (forall j, j <> me -> cview (get_radio w1 j) = cview (get_radio w j)).
+Proof. exact open_tx_pipe_world. Qed.
+Print Assumptions C08_tx_ack_path.
